@@ -227,3 +227,59 @@ def flatten_diff(diff, prefix=()):
         out[p] = getattr(op, "value", op)
         out.update(flatten_diff(children, p))
     return out
+
+
+class Fabric:
+    """several devices served by ONE worker: one Loader, one configuration directory (<host>.cfg, and <host>.acl when a
+    device has a filter ACL: `--filter-acl DIR`), and ONE stdin dict handed to every worker call, as annet.api.patch /
+    diff / gen build it once and pass it to the pool"""
+
+    def __init__(self, devices):
+        """devices: [{"hostname", "model", "old": forest, "gens": [(forest, safe)], "filter_acl": text or None}]"""
+        from annet.annlib.netdev.views.hardware import HardwareView
+        self.dir = tempfile.mkdtemp(prefix="verif-e2e-")
+        self.devs, self.gens = {}, {}
+        for n, spec in enumerate(devices, 1):
+            hw = HardwareView(spec["model"], None)
+            d = _Device()
+            d.hw = env.HwVendorCached(hw)
+            d.hostname, d.fqdn, d.id, d.breed = spec["hostname"], spec["hostname"] + ".example", n, hw.vendor
+            d.tags, d.storage, d.neighbours_ids = [], _Storage(), []
+            self.devs[n] = d
+            self.gens[d] = [forest_generator("E2EFab%d_%d%s" % (n, i, "Safe" if safe else ""), hw.vendor, forest, safe)
+                            for i, (forest, safe) in enumerate(spec["gens"])]
+            fmt = env.vendor_obj(hw.vendor).make_formatter()
+            with open(os.path.join(self.dir, d.hostname + ".cfg"), "w", encoding="utf-8") as fh:
+                fh.write(fmt.join(env.to_odict(spec["old"])))
+            if spec.get("filter_acl") is not None:
+                with open(os.path.join(self.dir, d.hostname + ".acl"), "w", encoding="utf-8") as fh:
+                    fh.write(spec["filter_acl"])
+        self.with_filter = any(spec.get("filter_acl") is not None for spec in devices)
+        fab = self
+
+        class L:
+            devices = property(lambda s_: list(fab.devs.values()))
+            device_ids = property(lambda s_: list(fab.devs))
+            device_fqdns = property(lambda s_: {i: d.fqdn for i, d in fab.devs.items()})
+
+            def get_device(s_, i):
+                return fab.devs[i]
+
+            def resolve_gens(s_, devices):
+                from annet import gen as ann_gen
+                return ann_gen.DeviceGenerators(partial={d: list(fab.gens[d]) for d in devices}, ref={d: [] for d in devices},
+                                                entire={d: [] for d in devices}, json_fragment={d: [] for d in devices})
+        self.loader = L()
+        self._args = self._stdin = None
+
+    def close(self):
+        shutil.rmtree(self.dir, ignore_errors=True)
+
+    def worker_call(self, dev_id):
+        """annet.api._patch_worker for one device, with the worker's long-lived args and stdin objects"""
+        from annet import api, cli_args
+        if self._args is None:
+            kw = {"filter_acl": self.dir} if self.with_filter else {}
+            self._args = cli_args.ShowPatchOptions(query=_harness_query(), config=self.dir, indent="  ", no_acl_exclusive=True, **kw)
+            self._stdin = self._args.stdin(filter_acl=self._args.filter_acl, config=self._args.config)
+        return list(api._patch_worker(dev_id, self._args, self._stdin, self.loader, None))
